@@ -584,6 +584,17 @@ func registerIntrinsics(in *Interp) {
 		}
 		return []Value{tFalse}
 	}
+	// vCompletes(f): natively f runs on a fresh goroutine and must finish within 3 s (false: it hangs); symbolically
+	// it is called in place (a blocked path ends there) and the result is true
+	I["#vCompletes"] = func(fr *Frame, g *Term, args []Value, site ssa.Instruction, fn *ssa.Function) []Value {
+		fv, ok := args[0].(*FuncVal)
+		if !ok {
+			in.unsupported(g, "vCompletes needs a function value")
+			return []Value{tTrue}
+		}
+		in.callFuncVal(fr, g, fv, nil, nil, site)
+		return []Value{tTrue}
+	}
 	// vJoin(f): natively f runs on a fresh goroutine that is joined; symbolically it is called in place
 	I["#vJoin"] = func(fr *Frame, g *Term, args []Value, site ssa.Instruction, fn *ssa.Function) []Value {
 		fv, ok := args[0].(*FuncVal)
